@@ -1,6 +1,8 @@
 package checks
 
 import (
+	"sync/atomic"
+	"sync"
 	"fmt"
 	"math/rand/v2"
 	"strings"
@@ -324,10 +326,103 @@ func runC11(c c11Case, rng *rand.Rand, r *rep.Report) (key, msg string, stats ma
 	return
 }
 
+// runC11ResponseRace: a data request whose message listener is still running when the session is
+// closed from another goroutine.  The transport answers the ongoing data request itself (429) and
+// that header write is slow; meanwhile the listener returns and the handler acknowledges with
+// 'ok'.  Whatever wins, the request gets ONE response.
+func runC11ResponseRace(closeMode string, r *rep.Report) (key, msg string, held bool) {
+	rig.Bubble(r.T(), func() {
+		so := &config.ServerOptions{}
+		so.SetPingInterval(20 * time.Second)
+		lis := make(chan struct{})
+		entered := make(chan struct{}, 4)
+		w := rig.NewWorld(rig.Options{Server: so, OnConnection: func(s engine.Socket) {
+			s.On("message", func(...any) {
+				entered <- struct{}{}
+				<-lis
+			})
+		}})
+		defer w.Finish()
+		cl, err := w.Connect(rig.ClientCfg{Rev: 4, Transport: "polling"})
+		rig.Wait()
+		sock := w.Socket(0)
+		if err != nil || sock == nil {
+			key, msg = "c11-handshake-failed", fmt.Sprint(err)
+			return
+		}
+		x := cl.PostStart([]refcodec.Packet{refcodec.Text(refcodec.Message, "hello")})
+		<-entered
+		hold := make(chan struct{})
+		var once sync.Once
+		var heldCode atomic.Int64
+		w.SetHoldHeader(func(req rig.Req, code int) chan struct{} {
+			if req.Method != "POST" {
+				return nil
+			}
+			var ch chan struct{}
+			once.Do(func() { ch = hold; heldCode.Store(int64(code)) })
+			return ch
+		})
+		closed := make(chan struct{})
+		go func() {
+			switch closeMode {
+			case "close-true":
+				sock.Close(true)
+			case "close-false":
+				sock.Close(false)
+			case "server-close":
+				w.Eng.Close()
+			}
+			close(closed)
+		}()
+		// the closer is inside the request context's write lock from here on: settle on real time
+		rig.Settle()
+		held = heldCode.Load() != 0
+		close(lis) // the listener returns, the handler goes on to acknowledge
+		rig.Settle()
+		rig.Settle()
+		close(hold)
+		<-closed
+		res, ok := x.WaitFor(5 * time.Second)
+		time.Sleep(50 * time.Millisecond)
+		rig.Wait()
+		w.SetHoldHeader(nil)
+		if !ok {
+			key, msg = "c11-no-response", fmt.Sprintf("the data request was never answered (%s while its listener was running)", closeMode)
+			return
+		}
+		for _, q := range w.Requests() {
+			if q.Method == "POST" && q.WriteHeaders != 1 {
+				key, msg = "c11-two-responses", fmt.Sprintf("data request with a running listener + %s from another goroutine, first header write (%d) slow: WriteHeader called %d times (client saw %d %q)", closeMode, heldCode.Load(), q.WriteHeaders, res.Status, res.Body)
+				return
+			}
+		}
+		if res.Err != nil || (res.Status != 200 && res.Status != 429) {
+			key, msg = "c11-no-response", fmt.Sprintf("data request answered %d %q err %v", res.Status, res.Body, res.Err)
+		}
+		cl.Stop()
+	})
+	return
+}
+
 func TestC11(t *testing.T) {
 	r := rep.New(t, "C11")
 	defer r.Flush()
-	r.Rule("PRNG polling/JSONP histories over real net/http: overlapping polls, overlapping data requests (first one with a slow body), a pending poll while the session closes by each cause (including the client's own close packet in a data request), polls and data requests aborted by the client mid-flight, multi-packet data requests with a listener that takes time (acknowledgement ordering by tap sequence numbers), a revision-4 data request with a binary content type, and mixed conformant histories with server sends and heartbeats; oracle: counting ResponseWriter (exactly one WriteHeader per non-aborted exchange), handler return log, 400 + 'transport error' on overlap, bubble goroutine-leftover scan 40 s after everything closed; distinct = scenario signature")
+	r.Rule("PRNG polling/JSONP histories over real net/http: overlapping polls, overlapping data requests (first one with a slow body), a pending poll while the session closes by each cause (including the client's own close packet in a data request), polls and data requests aborted by the client mid-flight, multi-packet data requests with a listener that takes time (acknowledgement ordering by tap sequence numbers), a revision-4 data request with a binary content type, mixed conformant histories with server sends and heartbeats, and a data request whose listener is running when the session is closed from another goroutine while the first header write is held (harness-side gate in the ResponseWriter); oracle: counting ResponseWriter (exactly one WriteHeader per non-aborted exchange), handler return log, 400 + 'transport error' on overlap, bubble goroutine-leftover scan 40 s after everything closed; distinct = scenario signature")
+	if r.Lane == 1%r.Lanes {
+		for k := 0; k < r.N(8, 200); k++ {
+			for _, mode := range []string{"close-true", "close-false", "server-close"} {
+				key, msg, held := runC11ResponseRace(mode, r)
+				r.Case("response-race/"+mode, true)
+				if held {
+					r.Obs("gate:first_header_write_of_the_data_request_held", 1)
+				}
+				if key != "" {
+					r.Violation(key, msg, map[string]string{"lane": "response race on a data request", "close": mode})
+				}
+			}
+		}
+	}
 	n := r.N(3000, 250000)
 	for i := 0; i < n; i++ {
 		if !r.Only(i) {
